@@ -15,7 +15,7 @@ THEOREMS = ["coarsenBins_spec", "coarsenGroup_eq_spec", "cmap_monotone", "cmap_c
             "coarsen_eq_spec", "coarsen_total", "coarsener_stream_sorted", "coarsen_chunk_independent",
             "coarsen_map_independent", "coarsen_compose", "coarsen_merge_commute", "rebin_correct", "prune_contract",
             "groupSum_map_groupSum"]
-LEVELS = {"coarsen": "top", "chain": "top", "merge_coarsen": "top", "agg": "top", "cli": "top",
+LEVELS = {"coarsen": "top", "chain": "top", "merge_coarsen": "top", "agg": "top", "extra_column": "top", "cli": "top",
           "prune": "unit", "coarsener": "unit", "bins": "unit"}
 DESCRIBE = {
     "coarsen": "cooler.coarsen_cooler(src, out, k, chunksize, nproc) for k = 2..n+1 and EVERY chunksize 1..nnz+1 (nnz <= 8; sampled "
@@ -24,8 +24,10 @@ DESCRIBE = {
     "chain": "coarsen k1 then k2 (two real runs) vs Lean `coarsenSpec (k1*k2)` / `coarsenBinsSpec (k1*k2)` (theorem coarsen_compose)",
     "merge_coarsen": "merge(coarsen a, coarsen b, …) and coarsen(merge(a, b, …)) (real runs) vs Lean `coarsenSpec k (mergeSpec inputs)` "
                      "(theorem coarsen_merge_commute)",
-    "agg": "coarsen with an extra value column and a requested aggregate (max/min): count column = exact sum (Lean), extra column = "
-           "aggregate over exactly the old pixels that Lean's `cmap` sends to the key",
+    "agg": "coarsen with a requested aggregate (max/min) on the count column: key set = Lean L0, value = aggregate over exactly the old "
+           "pixels that Lean's `cmap` sends to the key",
+    "extra_column": "coarsen with columns=['count','w']: the output carries w, count = exact sum (Lean), w = sum/max/min over exactly the "
+                    "old pixels that Lean's `cmap` sends to the key",
     "cli": "`cooler coarsen -k K -c CHUNK -o out in` (CliRunner) vs Lean L0",
     "prune": "contract `validPrunedEdges` evaluated by Lean on the real _greedy_prune_partition(edges, chunksize) output",
     "coarsener": "CoolerCoarsener(uri, k, chunksize): its pruned `.edges` satisfy `validPrunedEdges` w.r.t. Lean's `coarsenEdges` (every cut "
@@ -187,25 +189,58 @@ def _merge_coarsen(case):
 
 
 def _agg(case):
+    """requested aggregate on the count column"""
     bins, pixels, k, agg = case["bins"], case["pixels"], case["k"], case["agg"]
     d = gen.tmpdir()
     src = os.path.join(d, f"a-{_tag()}-src.cool")
     out = os.path.join(d, f"a-{_tag()}-out.cool")
     try:
+        gen.write_cooler(src, bins, pixels)
+        impl(cooler.coarsen_cooler, src, out, k, chunksize=case["chunksize"], columns=["count"], agg={"count": agg})
+        t = cooler.Cooler(out).pixels()[:]
+        got = {(int(a), int(b)): int(c) for a, b, c in zip(t["bin1_id"], t["bin2_id"], t["count"])}
+        m = _ask_coarsen(bins, pixels, k, case["chunksize"])
+        cm = drv().ask("C08.rebin", bins=bins, lens=_lens(bins), k=k)["cmap"]
+        keys = [(p[0], p[1]) for p in m["pixels"]]
+        if sorted(got) != keys:
+            return {"mismatch": True, "what": "key set under custom agg", "impl": sorted(got), "model": keys}
+        f = max if agg == "max" else min
+        for key in keys:
+            vals = [v for (i, j, v) in pixels if (cm[i], cm[j]) == key]
+            if got[key] != f(vals):
+                return {"mismatch": True, "what": f"count column agg={agg}", "key": key, "impl": got[key], "expected": f(vals)}
+        v = monitor.violations(out)
+        if [x for x in v if "sum" not in x]:
+            return {"mismatch": True, "what": "schema (C02 monitor)", "violated": v}
+        return None
+    finally:
+        _unlink(src, out)
+
+
+def _extra_column(case):
+    """an extra value column requested through `columns=` is aggregated into the output (sum, or the requested aggregate)"""
+    bins, pixels, k, agg = case["bins"], case["pixels"], case["k"], case["agg"]
+    d = gen.tmpdir()
+    src = os.path.join(d, f"x-{_tag()}-src.cool")
+    out = os.path.join(d, f"x-{_tag()}-out.cool")
+    try:
         w = [float(v * 2 + (i % 3)) for i, (_, _, v) in enumerate(pixels)]
         gen.write_cooler(src, bins, pixels, extra={"w": w}, columns=["count", "w"], dtypes={"w": "float64"})
-        impl(cooler.coarsen_cooler, src, out, k, chunksize=case["chunksize"], columns=["count", "w"], agg={"w": agg})
+        kw = {"agg": {"w": agg}} if agg != "sum" else {}
+        impl(cooler.coarsen_cooler, src, out, k, chunksize=case["chunksize"], columns=["count", "w"], **kw)
         t = cooler.Cooler(out).pixels()[:]
+        if "w" not in t.columns:
+            return {"mismatch": True, "what": "requested value column missing from the output", "columns": list(map(str, t.columns))}
         got = {(int(a), int(b)): (int(c), float(x)) for a, b, c, x in zip(t["bin1_id"], t["bin2_id"], t["count"], t["w"])}
         m = _ask_coarsen(bins, pixels, k, case["chunksize"])
         cm = drv().ask("C08.rebin", bins=bins, lens=_lens(bins), k=k)["cmap"]
         keys = [(p[0], p[1]) for p in m["pixels"]]
         if sorted(got) != keys or [got[q][0] for q in keys] != [p[2] for p in m["pixels"]]:
-            return {"mismatch": True, "what": "count column under custom agg", "impl": sorted(got.items()), "model": m["pixels"]}
-        f = max if agg == "max" else min
+            return {"mismatch": True, "what": "count column next to an extra column", "impl": sorted(got.items()), "model": m["pixels"]}
+        f = {"max": max, "min": min, "sum": sum}[agg]
         for key in keys:
             vals = [x for (i, j, _), x in zip(pixels, w) if (cm[i], cm[j]) == key]
-            if got[key][1] != f(vals):
+            if got[key][1] != f(vals):      # small integers and halves: exact in float64
                 return {"mismatch": True, "what": f"w column agg={agg}", "key": key, "impl": got[key][1], "expected": f(vals)}
         return None
     finally:
@@ -298,7 +333,7 @@ def _bins(case):
     return None
 
 
-CHECKS = {"coarsen": _coarsen, "chain": _chain, "merge_coarsen": _merge_coarsen, "agg": _agg, "cli": _cli,
+CHECKS = {"coarsen": _coarsen, "chain": _chain, "merge_coarsen": _merge_coarsen, "agg": _agg, "extra_column": _extra_column, "cli": _cli,
           "prune": _prune, "coarsener": _coarsener, "bins": _bins}
 
 
@@ -405,12 +440,14 @@ def cases(tier, rng):
             ins[0] = gen.matrix_kinds(rng, n, symm, "full")
         yield "merge_coarsen", {"bins": bins, "inputs": ins, "k": rng.randint(2, n + 1), "symm": symm,
                                 "cs": rng.randint(1, 6), "mergebuf": rng.randint(1, 8)}
-    for _ in range(24 if thorough else 6):
-        c = _cooler(rng, nmax)
-        c["symm"] = True
-        if not c["pixels"]:
-            c["pixels"] = gen.matrix_kinds(rng, len(c["bins"]), True, "full")
-        yield "agg", dict(c, k=rng.randint(2, len(c["bins"]) + 1), chunksize=rng.randint(1, 6), agg=rng.choice(["max", "min"]))
+    for t in range(24 if thorough else 8):
+        bins, style = _table(rng, nmax)
+        px = gen.matrix_kinds(rng, len(bins), True, rng.choice(["full", "dense-random", "random", "nodiag"]))
+        c = {"bins": bins, "pixels": px or gen.matrix_kinds(rng, len(bins), True, "full")}
+        c.update(k=rng.randint(2, len(bins) + 1), chunksize=rng.randint(1, 6))
+        yield "agg", dict(c, agg=rng.choice(["max", "min"]))
+        if t % 2 == 0:
+            yield "extra_column", dict(c, agg=["sum", "max", "min"][(t // 2) % 3])
     for _ in range(10 if thorough else 4):
         c = _cooler(rng, nmax)
         yield "cli", dict(c, k=rng.randint(2, len(c["bins"]) + 1), chunksize=rng.randint(1, 6))
@@ -427,7 +464,7 @@ def cases(tier, rng):
 
 
 def nontrivial(name, case):
-    if name in ("coarsen", "coarsener", "chain", "agg", "cli"):
+    if name in ("coarsen", "coarsener", "chain", "agg", "extra_column", "cli"):
         return len(case["pixels"]) >= 2 and len(case["bins"]) >= 3
     if name == "merge_coarsen":
         return sum(len(x) for x in case["inputs"]) >= 2 and len(case["bins"]) >= 3
@@ -457,6 +494,15 @@ def shrink(name, case):
             if "chunksizes" in c and name != "cli":
                 c["chunksizes"] = sorted({min(x, len(c["pixels"]) + 1) for x in c["chunksizes"]})
             yield c
+
+
+def classify(name, case, res, findings):
+    """proposed ledger entry D24: coarsen_cooler does not pass `columns` to create(), so a requested extra value column is
+    aggregated and then silently not written"""
+    ids = {f["id"] for f in findings}
+    if name == "extra_column" and res.get("what") == "requested value column missing from the output" and "D24" in ids:
+        return "D24"
+    return None
 
 
 def escalate(name, case, rng):
